@@ -545,8 +545,9 @@ Proof.
 Qed.
 
 Example static_check_examples :
-  static_check_text example_text = SV_typed /\ static_check_text example_drop_text = SV_typed.
-Proof. split; vm_compute; reflexivity. Qed.
+  static_check_text example_text = SV_typed /\ static_check_text example_drop_text = SV_typed /\
+  static_check_text example_split_text = SV_typed.
+Proof. repeat split; vm_compute; reflexivity. Qed.
 
 (* ------------------------------------------------------------------ C01 for a CHECKED program: the premise
    tc_annotations_typed is replaced by the computed verdict of the checker *)
